@@ -12,7 +12,8 @@ from ..core import Rule
 from ..model import AnalysisError, dotted, unparse, short
 from ..cfg import cfg_of
 from .. import straight as S
-from .c08 import find_guard, raising_ifs
+from .c08 import guard_contract, raising_ifs
+from ..contract import describe_alt
 
 EXPLANATION = ("State-transformer reconstruction of the Feistel loop bodies (straight-line use-def substitution): "
                "BitwiseFFX.encrypt must be T(a,b) = (b, a xor F(key,i,b,len a)) with F independent of a's value, decrypt must be "
@@ -196,11 +197,15 @@ def check(repo):
                                   (LR, "LubyRackoffPRP.__call__", "key", "key_length"),
                                   (LR, "LubyRackoffPRP.__call__", "message", "message_length")):
         fi = repo.func(rel, qual)
-        g = find_guard(fi, subj, decl)
-        if r5.require(g is not None, fi, "guard %s/%s" % (subj, decl), "%s no longer refuses a %s of the wrong length" % (qual, subj)):
-            cfg = cfg_of(fi.node)
-            rets = [n for n in cfg.nodes if n.kind == "return"]
-            r5.require(all(cfg.dominates(cfg.nodes_of(g)[0], r_.id) for r_ in rets), fi, "guard %s dominates" % subj, "%s: the %s check does not precede the permutation" % (qual, subj), g)
+        refused, bad, F, what = guard_contract(fi, subj, decl)
+        if r5.require(bool(refused), fi, "guard %s/%s" % (subj, decl), "%s no longer refuses a %s of the wrong length" % (qual, subj)):
+            if bad:
+                nid, alt = bad[0]
+                r5.fail_fn(fi, F.cfg.nodes[nid].stmt, "guard %s dominates" % subj,
+                           "%s: the %s check does not precede the permutation on every path: a result is produced under [%s], i.e. without %s being established "
+                           "(a wrong-length %s is then permuted at its own width instead of being refused)" % (qual, subj, describe_alt(alt), what.replace("!=", "=="), subj))
+            else:
+                r5.ok({"function": qual, "subject": subj, "declared": decl})
     fp = repo.func("toolkit/prp/bitwise_fpe_prp.py", "BitwiseFPEPRP.__call__")
     ret = [x for x in ast.walk(fp.node) if isinstance(x, ast.Return)]
     r5.require(len(ret) == 1 and unparse(ret[0].value) == "self.underlying_fpe.encrypt(bytes(key), message)", fp, "PRP delegates to the cipher",
